@@ -149,7 +149,7 @@ def strategy(tier):
 
 
 def STRATA(tier):
-    return SHAPE_FUNCS + ["getitem", "getitem-2", "getitem-3", "iter", "ravel", "flatten", "T", "reshape-2", "reshape-3"]
+    return SHAPE_FUNCS + ["getitem", "getitem-2", "getitem-3", "iter", "ravel", "flatten", "T", "reshape-2", "reshape-3", "where-2"]
 
 
 def strategy_for(tier, name):
@@ -252,6 +252,9 @@ def check_case(case, ctx):
             return fail("shape", repr(err), "axis-omitted")  # one root cause, whatever the symptom
         return fail("exception:" + type(err).__name__, repr(err), cls)
 
+    if fn == "where" and isinstance(case["args"][0], dict) and "$p" in case["args"][0]:
+        # a polynomial condition only says where: its names and dtype are not part of the result
+        descs = [d for d in descs if d is not case["args"][0]["$p"]]
     in_names = []
     for d in descs:
         for n in d["names"]:
